@@ -214,7 +214,11 @@ def run_expo(ctx, doubles):
         g = GaugeMetricFamily('v', 'values', labels=['i'])
         for k, d in enumerate(batch):
             g.add_metric([str(k)], d)
-        fams = [g]
+        # the same values under a name that needs the quoted {"name",…} spelling (its own branch of both sample-line writers)
+        gq = GaugeMetricFamily('v.\u00e9', 'values', labels=['i'])
+        for k, d in enumerate(batch):
+            gq.add_metric([str(k)], d)
+        fams = [g, gq]
         # le labels and exemplar values: a histogram family built from the positive finite values of the batch
         bounds = sorted({d for d in batch if d == d and 0 < d < math.inf})[:8]
         if bounds:
@@ -236,11 +240,20 @@ def run_expo(ctx, doubles):
                          {'bits_list': [lib.bits_of(d) for d in batch], 'fmt': fmt})
                 continue
             lines = out.split('\n')
-            seen = {}
+            seen, seenq = {}, {}
+            QRE = re.compile(r'^\{"v\.\u00e9", ?i="(\d+)"\} (\S+)')
             for ln in lines:
                 if ln.startswith('v{i="'):
                     k = int(ln[5:ln.index('"', 5)])
                     seen[k] = ln.split('} ', 1)[1].split(' ')[0]
+                elif QRE.match(ln):
+                    seenq[int(QRE.match(ln).group(1))] = QRE.match(ln).group(2)
+            for k, d in enumerate(batch):
+                tq = seenq.get(k)
+                if tq is None or oracle(d, tq):
+                    ctx.fail('C13:expo-quoted-name', '%s exposition renders value %r of a sample with a quoted (UTF-8) name as %r: %s'
+                             % (fmt, d, tq, oracle(d, tq) if tq is not None else 'sample line missing'),
+                             {'bits_list': [lib.bits_of(x) for x in batch], 'fmt': fmt, 'index': k})
             for k, d in enumerate(batch):
                 ctx.case(nontrivial_key=('expo', fmt, lib.bits_of(d)))
                 tok = seen.get(k)
